@@ -711,3 +711,491 @@ Proof.
   destruct (oauth2_success_binds_lemma E2 prov2 h2 r2 h2' U K2 S2 Q2 A2) as (U2 & _).
   apply make_oauth2_pid_inj; [exact N1|exact N2|congruence].
 Qed.
+
+(* ================================================================================================ *)
+(* 4. completion of a pending login (C02)                                                           *)
+(* ================================================================================================ *)
+Section C02.
+Variable E : env.
+Notation vals := (values E).
+Notation sess := (e_sess E).
+Notation rc_in := (aget f_recovery_code (values E)).
+Notation code_in := (aget f_code (values E)).
+
+(* where the validators find their user, sharpened: a key that is looked up is not empty *)
+Definition user_source2 (pk : bytes) (h : hst) (u : user) : Prop :=
+  h_cuser h = Some u \/
+  (bempty (cur_pid E h) = false /\ ulookup (cur_pid E h) (s_users (h_st h)) = Some u) \/
+  (bempty (aget pk sess) = false /\ ulookup (aget pk sess) (s_users (h_st h)) = Some u).
+
+Lemma current_user_loaded_nonempty h u h0 :
+  current_user E h = (Ok (u, false), h0) -> bempty (cur_pid E h) = false.
+Proof.
+  unfold current_user, current_user_id, cur_pid, bind, get_h, ret, fail. cbn beta iota.
+  destruct (h_cuser h) as [cu|]; [intros Eq; inversion Eq|].
+  destruct (h_cpid h) as [p|]; cbn beta iota.
+  - destruct (bempty p); [intros Eq; inversion Eq|reflexivity].
+  - destruct (bempty (aget k_uid sess)); [intros Eq; inversion Eq|reflexivity].
+Qed.
+
+Lemma fetch_user_spec2 pk h u sh h1 :
+  try (current_user E) (fun r =>
+        match r with
+        | Err ErrUserNotFound =>
+            let pid := aget pk sess in
+            if bempty pid then fail ErrUserNotFound
+            else u <- st_load (e_O E) pid ;; ret (u, false)
+        | Err e => fail e
+        | Panic => panic
+        | Ok x => ret x
+        end) h = (Ok (u, sh), h1) ->
+  h_st h1 = h_st h /\ user_source2 pk h u.
+Proof.
+  intros Eq. apply try_inv in Eq as [(x & h0 & Cu & NP & K1)|(_ & D)]; [|discriminate D].
+  pose proof (current_user_spec _ _ _ _ Cu) as (_ & _ & S4 & _ & _ & _ & Hx).
+  destruct x as [[u1 sh1]|e|]; [|destruct e|congruence]; try (inversion K1; fail).
+  - inversion K1; subst. split; [exact S4|].
+    destruct (Hx _ _ eq_refl) as [(_ & H)|(Hs & H)]; [left; exact H|right; left].
+    subst sh. split; [exact (current_user_loaded_nonempty _ _ _ Cu)|exact H].
+  - cbv zeta in K1. destruct (bempty (aget pk sess)) eqn:Bp; [inversion K1|].
+    apply bind_ok_inv in K1 as (u2 & h2 & L & R). inversion R; subst.
+    pose proof (st_load_spec _ _ _ _ _ L) as (_ & _ & _ & T4 & _ & _ & Hu & _).
+    split; [congruence|]. right. right. split; [exact Bp|]. rewrite <- S4. apply Hu. reflexivity.
+Qed.
+
+(* at the start of a request (nothing cached) with no identified user in the session, the
+   validators' user is the one parked under the pending key *)
+Lemma user_source2_pending pk h u :
+  keyed (h_st h) -> h_cuser h = None -> h_cpid h = None ->
+  user_source2 pk h u ->
+  (bempty (aget k_uid sess) = false /\ u_pid u = aget k_uid sess /\
+   ulookup (aget k_uid sess) (s_users (h_st h)) = Some u) \/
+  (bempty (aget pk sess) = false /\ u_pid u = aget pk sess /\
+   ulookup (aget pk sess) (s_users (h_st h)) = Some u).
+Proof.
+  intros Ky Hc Hp [H|[(B & H)|(B & H)]]; [congruence| |].
+  - unfold cur_pid in *. rewrite Hp in *. left. split; [exact B|]. split; [exact (Ky _ _ H)|exact H].
+  - right. split; [exact B|]. split; [exact (Ky _ _ H)|exact H].
+Qed.
+
+(* ---- /2fa/totp/validate ---- *)
+Definition totp_proved (u : user) : Prop :=
+  bempty (u_totp u) = false /\
+  ((bempty rc_in = true /\ totp_ok E (u_totp u) code_in = true) \/
+   (bempty rc_in = false /\
+    exists rest, use_recovery_code E (decode_codes (u_recovery u)) rc_in = Some rest)).
+
+Definition g_totp2 (h : hst) (U : bytes) : Prop :=
+  exists u, user_source2 k_totp_pending h u /\ u_pid u = U /\ totp_proved u.
+
+Lemma totp_validate_spec2 h u' sh h1 :
+  totp_validate E h = (Ok (u', sh, Some TSuccess), h1) ->
+  exists u, user_source2 k_totp_pending h u /\ u_pid u' = u_pid u /\ totp_proved u.
+Proof.
+  unfold totp_validate. intros Eq.
+  apply bind_ok_inv in Eq as ([u sh0] & h0 & Fe & Eq).
+  apply fetch_user_spec2 in Fe as (_ & Src). cbn beta iota in Eq.
+  destruct (bempty (u_totp u)) eqn:Tp; [inversion Eq|].
+  apply bind_ok_inv in Eq as (v & h2 & Rv & Eq).
+  apply read_values_spec in Rv as [-> [Hv|Hv]]; [|discriminate Hv]. inversion Hv; subst v; clear Hv. cbv zeta in Eq.
+  exists u. unfold totp_proved.
+  destruct (bempty rc_in) eqn:Rc; cbn [negb] in Eq.
+  - destruct (c_onetime (e_cfg E)).
+    + destruct (beqb (u_totp_last u) code_in); [inversion Eq|].
+      apply bind_ok_inv in Eq as (? & ? & _ & Eq).
+      destruct (totp_ok E (u_totp u) code_in) eqn:Tk; cbn [negb] in Eq; inversion Eq; subst.
+      repeat split; auto.
+    + destruct (totp_ok E (u_totp u) code_in) eqn:Tk; cbn [negb] in Eq; inversion Eq; subst.
+      repeat split; auto.
+  - destruct (use_recovery_code E (decode_codes (u_recovery u)) rc_in) as [rest|] eqn:Uc;
+      [|inversion Eq].
+    apply bind_ok_inv in Eq as (? & ? & _ & Eq). apply bind_ok_inv in Eq as (? & ? & _ & Eq).
+    apply bind_ok_inv in Eq as (? & ? & _ & Eq). inversion Eq; subst.
+    split; [exact Src|]. split; [reflexivity|]. split; [exact Tp|]. right. split; [reflexivity|]. exists rest. reflexivity.
+Qed.
+
+Lemma totp_validate_post_guard2 h : guarded (g_totp2 h) (totp_validate_post E) h.
+Proof.
+  unfold totp_validate_post.
+  apply guarded_bind; [apply guarded_of_neutral, neutral_totp_validate|intros [[u sh] st] h1 H1].
+  destruct st as [[| |]|]; try (neutral_tail; fail).
+  apply totp_validate_spec2 in H1 as (u0 & Src & Pd & Fx).
+  assert (G : g_totp2 h (u_pid u)) by (exists u0; auto).
+  apply guarded_of_evs. ggo.
+Qed.
+
+(* ---- /2fa/sms/validate ---- *)
+Definition sms_proved (u : user) : Prop :=
+  (bempty rc_in = true /\ bempty (aget k_sms_secret sess) = false /\
+   code_in = aget k_sms_secret sess /\
+   match alookup k_sms_secret_number sess with Some sent => sent = u_sms u | None => True end) \/
+  (bempty rc_in = false /\
+   exists rest, use_recovery_code E (decode_codes (u_recovery u)) rc_in = Some rest).
+
+Definition g_sms2 (h : hst) (U : bytes) : Prop :=
+  exists u, user_source2 k_sms_pending h u /\ u_pid u = U /\ sms_proved u.
+
+Lemma sms_validator_post_guard2 h : guarded (g_sms2 h) (sms_validator_post E SPValidate) h.
+Proof.
+  unfold sms_validator_post.
+  apply guarded_bind; [neutral_tail|intros [u sh] h1 H1].
+  apply fetch_user_spec2 in H1 as (_ & Src). cbn beta iota.
+  apply guarded_bind; [neutral_tail|intros v h2 H2].
+  apply read_values_spec in H2 as [-> [Hv|Hv]]; [|discriminate Hv]. inversion Hv; subst v; clear Hv. cbv zeta.
+  destruct (bempty rc_in && bempty code_in).
+  { apply guarded_of_neutral. apply neutral_sms_send_code. }
+  destruct (bempty rc_in) eqn:Rc; cbn [negb]; unfold sms_validate_code.
+  - cbn [bempty negb].
+    apply guarded_bind; [neutral_tail|intros [vf u2] h3 H3]. cbv zeta in H3.
+    destruct (bempty (aget k_sms_secret sess)) eqn:Sc; [discriminate H3|].
+    inversion H3; subst vf u2 h3; clear H3.
+    destruct (beqb code_in (aget k_sms_secret sess)) eqn:Cd; cbn [andb negb]; [|neutral_tail].
+    destruct (match alookup k_sms_secret_number sess with Some sent => beqb sent (u_sms u) | None => true end) eqn:Bd;
+      cbn [negb]; [|neutral_tail].
+    assert (G : g_sms2 h (u_pid u)).
+    { exists u. split; [exact Src|]. split; [reflexivity|]. left. apply beqb_eq in Cd.
+      split; [exact Rc|]. split; [exact Sc|]. split; [exact Cd|].
+      destruct (alookup k_sms_secret_number sess); [apply beqb_eq; exact Bd|exact I]. }
+    apply guarded_of_evs. ggo.
+  - rewrite Rc. cbn [negb].
+    destruct (use_recovery_code E (decode_codes (u_recovery u)) rc_in) as [rest|] eqn:Uc.
+    + apply guarded_bind; [neutral_tail|intros [vf u2] h3 H3].
+      apply bind_ok_inv in H3 as (? & ? & _ & H3). apply bind_ok_inv in H3 as (? & ? & _ & H3).
+      apply bind_ok_inv in H3 as (? & ? & _ & H3). inversion H3; subst vf u2; clear H3. cbn [negb].
+      assert (G : g_sms2 h (u_pid u)).
+      { exists u. split; [exact Src|]. split; [reflexivity|]. right. split; [exact Rc|]. exists rest. exact Uc. }
+      apply guarded_of_evs. ggo.
+    + apply guarded_bind; [neutral_tail|intros [vf u2] h3 H3]. inversion H3; subst. cbn [negb]. neutral_tail.
+Qed.
+
+(* ---- the same with the state afterwards: a recovery code that completes a login is gone ---- *)
+(* every appended session event is uid-neutral, or writes an identity U with [GP U h'], h' being
+   the state in which the handler ended *)
+Definition uid_fin (GP : bytes -> hst -> Prop) (h' : hst) (e : csevent) : Prop :=
+  sess_neutral e \/ exists U, e = Put k_uid U /\ GP U h'.
+Definition gpon (GP : bytes -> hst -> Prop) {A} (m : M A) (h : hst) : Prop :=
+  forall r h', m h = (r, h') -> exists ls, h_sev h' = h_sev h ++ ls /\ Forall (uid_fin GP h') ls.
+
+Lemma gpon_of_neutral (GP : bytes -> hst -> Prop) {A} (m : M A) h : evs_all sess_neutral any_ev m -> gpon GP m h.
+Proof.
+  intros H r h' Eq. destruct (H _ _ _ Eq) as [(ls & lc & S & _ & Fa & _) _]. exists ls. split; [exact S|].
+  eapply Forall_impl; [|exact Fa]. intros e He. left. exact He.
+Qed.
+
+Lemma gpon_bind (GP : bytes -> hst -> Prop) {A B} (m : M A) (f : A -> M B) h :
+  evs_all sess_neutral any_ev m -> (forall a h1, m h = (Ok a, h1) -> gpon GP (f a) h1) -> gpon GP (bind m f) h.
+Proof.
+  intros Hm Hf r h' Eq. apply bind_inv in Eq as [(a & h1 & E1 & E2)|[(e & E1 & ->)|(E1 & ->)]].
+  - destruct (Hm _ _ _ E1) as [(l1 & c1 & S1 & _ & F1 & _) _].
+    destruct (Hf a h1 E1 _ _ E2) as (l2 & S2 & F2).
+    exists (l1 ++ l2). rewrite S2, S1, app_assoc. split; [reflexivity|]. apply Forall_app. split; [|exact F2].
+    eapply Forall_impl; [|exact F1]. intros e He. left. exact He.
+  - exact (gpon_of_neutral GP m h Hm _ _ E1).
+  - exact (gpon_of_neutral GP m h Hm _ _ E1).
+Qed.
+
+Lemma gpon_final (GP : bytes -> hst -> Prop) (G0 : bytes -> Prop) (P0 : hst -> Prop) {A} (m : M A) h :
+  evs_all (uid_guard G0) any_ev m -> (forall r h', m h = (r, h') -> P0 h') ->
+  (forall U h', G0 U -> P0 h' -> GP U h') -> gpon GP m h.
+Proof.
+  intros Hm Hp Hi r h' Eq. destruct (Hm _ _ _ Eq) as [(ls & lc & S & _ & Fa & _) _]. exists ls. split; [exact S|].
+  pose proof (Hp _ _ Eq) as P'. eapply Forall_impl; [|exact Fa].
+  intros e [N|(U & He & G')]; [left; exact N|right]. exists U. split; [exact He|]. apply Hi; assumption.
+Qed.
+
+Lemma gpon_put (GP : bytes -> hst -> Prop) {A} (m : M A) h r h' U :
+  gpon GP m h -> m h = (r, h') -> appends_uid h h' U -> GP U h'.
+Proof.
+  intros Hg Eq (ls & S & I). destruct (Hg _ _ Eq) as (ls' & S' & Fa).
+  rewrite S in S'. apply app_inv_head in S'. subst ls'.
+  rewrite Forall_forall in Fa. destruct (Fa _ I) as [N|(U' & Hu & G')].
+  - exfalso. apply N. reflexivity.
+  - inversion Hu; subst. exact G'.
+Qed.
+
+Ltac keeps_go QL :=
+  repeat first [ apply keeps_bind; [|intros]
+               | apply (keeps_fire _ _ _ _ QL); discriminate
+               | match goal with |- keeps_inv _ _ _ (if ?c then _ else _) => destruct c end
+               | apply keeps_of_pres; assumption
+               | apply keeps_of_pres; pres_go; fail ].
+
+(* what follows a successful validation: the record of the validated user keeps every property
+   the lock bookkeeping does not touch, on every way out *)
+Definition login_tail (u : user) (kind pend : bytes) (extra : M unit) : M unit :=
+  set_cuser u ;;;
+  handled <- fire E EvBeforeAuth false ;;
+  if handled then ret tt else
+  put_session k_uid (u_pid u) ;;; put_session k_twofactor kind ;;;
+  del_session k_halfauth ;;; del_session pend ;;; extra ;;;
+  log [u_pid u] ;;;
+  handled <- fire E EvAfterAuth false ;;
+  if handled then ret tt else redirect E (ro_follow_redir (p_login_ok_of (e_cfg E))).
+
+Lemma login_tail_keeps (Q : user -> Prop) u kind pend extra h r h' :
+  (forall x s, Q x -> Q (set_ltriple x s)) -> pres uc extra ->
+  Q u -> ulookup (u_pid u) (s_users (h_st h)) = Some u ->
+  login_tail u kind pend extra h = (r, h') ->
+  exists su, ulookup (u_pid u) (s_users (h_st h')) = Some su /\ Q su.
+Proof.
+  intros QL Pe Qu Lu Eq. unfold login_tail in Eq.
+  apply bind_inv in Eq as [(a1 & h1 & E1 & Eq)|[(e & E1 & _)|(E1 & _)]]; try (inversion E1; fail).
+  assert (I1 : hinv (u_pid u) Q (s_users (h_st h1)) h1).
+  { inversion E1; subst h1. simpl. split; [exists u; auto|]. split; [exists u; auto|]. intros p _. reflexivity. }
+  clear E1. set (L0 := s_users (h_st h1)) in *. clearbody L0.
+  match type of Eq with ?m _ = _ => assert (KI : keeps_inv (u_pid u) Q L0 m) by keeps_go QL end.
+  destruct (KI _ _ _ I1 Eq) as (_ & (su & Hs & Qs) & _). exists su. auto.
+Qed.
+
+Definition rc_gone (u : user) (U : bytes) (h' : hst) : Prop :=
+  bempty rc_in = false ->
+  forall rest, use_recovery_code E (decode_codes (u_recovery u)) rc_in = Some rest ->
+  exists su, ulookup U (s_users (h_st h')) = Some su /\ u_recovery su = encode_codes rest /\ u_pid su = U.
+
+Definition rcQ (u : user) (rest : list bytes) (x : user) : Prop :=
+  u_pid x = u_pid u /\ u_recovery x = encode_codes rest.
+Lemma rcQ_lock u rest x s : rcQ u rest x -> rcQ u rest (set_ltriple x s).
+Proof. intros H. exact H. Qed.
+
+(* ---- /2fa/totp/validate ---- *)
+Lemma totp_validate_spec3 h u' sh h1 :
+  totp_validate E h = (Ok (u', sh, Some TSuccess), h1) ->
+  exists u, user_source2 k_totp_pending h u /\ u_pid u' = u_pid u /\ totp_proved u /\
+    (bempty rc_in = false ->
+     exists rest, use_recovery_code E (decode_codes (u_recovery u)) rc_in = Some rest /\
+       u' = consumed u rest /\ ulookup (u_pid u) (s_users (h_st h1)) = Some u').
+Proof.
+  unfold totp_validate. intros Eq.
+  apply bind_ok_inv in Eq as ([u sh0] & h0 & Fe & Eq).
+  apply fetch_user_spec2 in Fe as (_ & Src). cbn beta iota in Eq.
+  destruct (bempty (u_totp u)) eqn:Tp; [inversion Eq|].
+  apply bind_ok_inv in Eq as (v & h2 & Rv & Eq).
+  apply read_values_spec in Rv as [-> [Hv|Hv]]; [|discriminate Hv]. inversion Hv; subst v; clear Hv. cbv zeta in Eq.
+  exists u. unfold totp_proved.
+  destruct (bempty rc_in) eqn:Rc; cbn [negb] in Eq.
+  - destruct (c_onetime (e_cfg E)).
+    + destruct (beqb (u_totp_last u) code_in); [inversion Eq|].
+      apply bind_ok_inv in Eq as (? & ? & _ & Eq).
+      destruct (totp_ok E (u_totp u) code_in) eqn:Tk; cbn [negb] in Eq; inversion Eq; subst.
+      repeat split; auto. intros D; discriminate D.
+    + destruct (totp_ok E (u_totp u) code_in) eqn:Tk; cbn [negb] in Eq; inversion Eq; subst.
+      repeat split; auto. intros D; discriminate D.
+  - destruct (use_recovery_code E (decode_codes (u_recovery u)) rc_in) as [rest|] eqn:Uc;
+      [|inversion Eq].
+    apply bind_ok_inv in Eq as (? & ? & _ & Eq). apply bind_ok_inv in Eq as (? & ? & _ & Eq).
+    apply bind_ok_inv in Eq as ([] & h5 & Sv & Eq). inversion Eq; subst.
+    apply st_save_spec in Sv as (_ & _ & _ & _ & [(e' & Hr & _)|(_ & St)]); [discriminate Hr|].
+    split; [exact Src|]. split; [reflexivity|]. split; [split; [exact Tp|right; split; [reflexivity|exists rest; reflexivity]]|].
+    intros _. exists rest. split; [reflexivity|]. split; [reflexivity|].
+    rewrite St. simpl. apply ulookup_uput_eq.
+Qed.
+
+Definition gp_totp (h : hst) (U : bytes) (h' : hst) : Prop :=
+  exists u, user_source2 k_totp_pending h u /\ u_pid u = U /\ totp_proved u /\ rc_gone u U h'.
+
+Lemma totp_ok_tail_keeps (Q : user -> Prop) u h r h' :
+  (forall x s, Q x -> Q (set_ltriple x s)) ->
+  Q u -> ulookup (u_pid u) (s_users (h_st h)) = Some u ->
+  ((if c_onetime (e_cfg E) then st_save (e_O E) u else ret tt) ;;;
+   login_tail u (bs "totp") k_totp_pending (del_session k_totp_secret)) h = (r, h') ->
+  exists su, ulookup (u_pid u) (s_users (h_st h')) = Some su /\ Q su.
+Proof.
+  intros QL Qu Lu Eq.
+  apply bind_inv in Eq as [(a1 & h1 & E1 & Eq)|[(e & E1 & ->)|(E1 & ->)]].
+  - assert (L1 : ulookup (u_pid u) (s_users (h_st h1)) = Some u).
+    { destruct (c_onetime (e_cfg E)); [|inversion E1; subst; exact Lu].
+      apply st_save_spec in E1 as (_ & _ & _ & _ & [(e' & _ & St)|(_ & St)]); rewrite St; [exact Lu|].
+      simpl. apply ulookup_uput_eq. }
+    eapply login_tail_keeps; [exact QL| |exact Qu|exact L1|exact Eq]. pres_go.
+  - destruct (c_onetime (e_cfg E)); [|inversion E1].
+    apply st_save_spec in E1 as (_ & _ & _ & _ & [(e' & _ & St)|(Hr & _)]); [|discriminate Hr].
+    exists u. rewrite St. auto.
+  - destruct (c_onetime (e_cfg E)); [|inversion E1].
+    apply st_save_spec in E1 as (_ & _ & _ & _ & [(e' & Hr & _)|(Hr & _)]); discriminate Hr.
+Qed.
+
+Lemma totp_validate_post_gpon h : gpon (gp_totp h) (totp_validate_post E) h.
+Proof.
+  unfold totp_validate_post.
+  apply gpon_bind; [apply neutral_totp_validate|intros [[u' sh] st] h1 H1].
+  destruct st as [[| |]|]; try (apply gpon_of_neutral; ntl; fail).
+  apply totp_validate_spec3 in H1 as (u & Src & Pd & Fx & Rm).
+  apply (gpon_final _ (fun U => U = u_pid u') (rc_gone u (u_pid u))).
+  - ggo.
+  - intros r h' Eq Brc rest Hrest.
+    destruct (Rm Brc) as (rest0 & Hr0 & Hu' & L1). assert (rest0 = rest) by congruence. subst rest0.
+    change (((if c_onetime (e_cfg E) then st_save (e_O E) u' else ret tt) ;;;
+             login_tail u' (bs "totp") k_totp_pending (del_session k_totp_secret)) h1 = (r, h')) in Eq.
+    rewrite <- Pd in L1 |- *.
+    destruct (totp_ok_tail_keeps (rcQ u rest) u' h1 r h' (rcQ_lock u rest)) as (su & Ls & Q1 & Q2); auto.
+    + subst u'. split; reflexivity.
+    + exists su. rewrite Pd in *. auto.
+  - intros U h' -> Rg. exists u. rewrite Pd. auto.
+Qed.
+
+Lemma totp_completion_lemma h r h' U :
+  keyed (h_st h) -> h_cuser h = None -> h_cpid h = None ->
+  totp_validate_post E h = (r, h') -> appends_uid h h' U ->
+  ((bempty (aget k_uid sess) = false /\ U = aget k_uid sess) \/
+   (bempty (aget k_totp_pending sess) = false /\ U = aget k_totp_pending sess)) /\
+  exists u, ulookup U (s_users (h_st h)) = Some u /\ u_pid u = U /\
+    bempty (u_totp u) = false /\
+    ((bempty rc_in = true /\ totp_ok E (u_totp u) code_in = true) \/
+     (bempty rc_in = false /\
+      exists rest, use_recovery_code E (decode_codes (u_recovery u)) rc_in = Some rest /\
+        exists su, ulookup U (s_users (h_st h')) = Some su /\ u_recovery su = encode_codes rest /\ u_pid su = U)).
+Proof.
+  intros Ky Hc Hp Eq Ap.
+  destruct (gpon_put _ _ _ _ _ _ (totp_validate_post_gpon h) Eq Ap) as (u & Src & Pu & (Bt & Fx) & Rg).
+  assert (FX : (bempty rc_in = true /\ totp_ok E (u_totp u) code_in = true) \/
+     (bempty rc_in = false /\
+      exists rest, use_recovery_code E (decode_codes (u_recovery u)) rc_in = Some rest /\
+        exists su, ulookup U (s_users (h_st h')) = Some su /\ u_recovery su = encode_codes rest /\ u_pid su = U)).
+  { destruct Fx as [Fx|(B & rest & Hr)]; [left; exact Fx|right]. split; [exact B|]. exists rest. split; [exact Hr|].
+    exact (Rg B rest Hr). }
+  apply (user_source2_pending _ _ _ Ky Hc Hp) in Src as [(B & Pk & L)|(B & Pk & L)].
+  - split; [left; split; [exact B|congruence]|]. exists u.
+    split; [rewrite <- Pu, Pk; exact L|]. split; [exact Pu|]. split; [exact Bt|exact FX].
+  - split; [right; split; [exact B|congruence]|]. exists u.
+    split; [rewrite <- Pu, Pk; exact L|]. split; [exact Pu|]. split; [exact Bt|exact FX].
+Qed.
+
+(* ---- /2fa/sms/validate ---- *)
+Definition gp_sms (h : hst) (U : bytes) (h' : hst) : Prop :=
+  exists u, user_source2 k_sms_pending h u /\ u_pid u = U /\ sms_proved u /\ rc_gone u U h'.
+
+Lemma neutral_sms_check p u sh inp rc : evs_all sess_neutral any_ev (sms_check E p u sh inp rc).
+Proof. unfold sms_check. ntl. Qed.
+Lemma neutral_sms_fail_tail p u : evs_all sess_neutral any_ev (sms_fail_tail E p u).
+Proof. unfold sms_fail_tail. ntl. Qed.
+
+Lemma sms_ok_validate_keeps (Q : user -> Prop) u sh h r h' :
+  (forall x s, Q x -> Q (set_ltriple x s)) ->
+  Q u -> ulookup (u_pid u) (s_users (h_st h)) = Some u ->
+  sms_ok_tail E SPValidate u sh h = (r, h') ->
+  exists su, ulookup (u_pid u) (s_users (h_st h')) = Some su /\ Q su.
+Proof.
+  intros QL Qu Lu Eq. unfold sms_ok_tail in Eq.
+  apply bind_inv in Eq as [(a1 & h1 & E1 & Eq)|[(e & E1 & _)|(E1 & _)]]; try (inversion E1; fail).
+  assert (I1 : hinv (u_pid u) Q (s_users (h_st h1)) h1).
+  { inversion E1; subst h1. simpl. split; [exists u; auto|]. split; [exists u; auto|]. intros p _. reflexivity. }
+  clear E1. set (L0 := s_users (h_st h1)) in *. clearbody L0.
+  match type of Eq with ?m _ = _ => assert (KI : keeps_inv (u_pid u) Q L0 m) by keeps_go QL end.
+  destruct (KI _ _ _ I1 Eq) as (_ & (su & Hs & Qs) & _). exists su. auto.
+Qed.
+
+Lemma sms_validate_code_gpon h0 u sh inp rc h :
+  user_source2 k_sms_pending h0 u ->
+  (bempty rc = true -> inp = code_in /\ bempty rc_in = true) ->
+  (bempty rc = false -> rc = rc_in) ->
+  gpon (gp_sms h0) (sms_validate_code E SPValidate u sh inp rc) h.
+Proof.
+  intros Src Hc Hr. rewrite sms_validate_code_unfold.
+  apply gpon_bind; [apply neutral_sms_check|intros [vf u1] h3 H3].
+  apply sms_check_spec in H3 as [(Rr & Hh)|[(Rr & _)|[(B & Rr & Hh & Bc & Hi & Bd)|(B & rest & Ur & Rr & Hs)]]].
+  - inversion Rr; subst vf u1. cbn [negb]. apply gpon_of_neutral, neutral_sms_fail_tail.
+  - exfalso. eapply Rr. reflexivity.
+  - inversion Rr; subst vf u1. cbn [negb]. destruct (Hc B) as (Hi' & Brc).
+    apply (gpon_final _ (fun U => U = u_pid u) (fun _ => True)).
+    + unfold sms_ok_tail. ggo.
+    + intros; exact I.
+    + intros U k -> _. exists u. split; [exact Src|]. split; [reflexivity|]. split.
+      * left. split; [exact Brc|]. split; [exact Bc|]. split; [congruence|]. exact Bd.
+      * intros D. congruence.
+  - inversion Rr; subst vf u1. cbn [negb]. pose proof (Hr B) as Erc. subst rc.
+    apply (gpon_final _ (fun U => U = u_pid u) (rc_gone u (u_pid u))).
+    + unfold sms_ok_tail. ggo.
+    + intros r k Eq _ rest' Hrest'. assert (rest' = rest) by congruence. subst rest'.
+      destruct (sms_ok_validate_keeps (rcQ u rest) (consumed u rest) sh h3 r k (rcQ_lock u rest)) as (su & Ls & Q1 & Q2); auto.
+      * split; reflexivity.
+      * rewrite Hs. simpl. apply ulookup_uput_eq.
+      * exists su. auto.
+    + intros U k -> Rg. exists u. split; [exact Src|]. split; [reflexivity|]. split; [|exact Rg].
+      right. split; [exact B|]. exists rest. exact Ur.
+Qed.
+
+Lemma sms_validator_post_gpon h : gpon (gp_sms h) (sms_validator_post E SPValidate) h.
+Proof.
+  unfold sms_validator_post.
+  apply gpon_bind; [ntl|intros [u sh] h1 H1].
+  apply fetch_user_spec2 in H1 as (_ & Src). cbn beta iota.
+  apply gpon_bind; [ntl|intros v h2 H2].
+  apply read_values_spec in H2 as [-> [Hv|Hv]]; [|discriminate Hv]. inversion Hv; subst v; clear Hv. cbv zeta.
+  destruct (bempty rc_in && bempty code_in).
+  { apply gpon_of_neutral. apply neutral_sms_send_code. }
+  destruct (bempty rc_in) eqn:Rc; cbn [negb].
+  - apply sms_validate_code_gpon; [exact Src|intros _; auto|intros D; discriminate D].
+  - apply sms_validate_code_gpon; [exact Src|intros D; congruence|intros _; reflexivity].
+Qed.
+
+Lemma sms_completion_lemma h r h' U :
+  keyed (h_st h) -> h_cuser h = None -> h_cpid h = None ->
+  sms_validator_post E SPValidate h = (r, h') -> appends_uid h h' U ->
+  ((bempty (aget k_uid sess) = false /\ U = aget k_uid sess) \/
+   (bempty (aget k_sms_pending sess) = false /\ U = aget k_sms_pending sess)) /\
+  exists u, ulookup U (s_users (h_st h)) = Some u /\ u_pid u = U /\
+    ((bempty rc_in = true /\ bempty (aget k_sms_secret sess) = false /\
+      code_in = aget k_sms_secret sess /\
+      match alookup k_sms_secret_number sess with Some sent => sent = u_sms u | None => True end) \/
+     (bempty rc_in = false /\
+      exists rest, use_recovery_code E (decode_codes (u_recovery u)) rc_in = Some rest /\
+        exists su, ulookup U (s_users (h_st h')) = Some su /\ u_recovery su = encode_codes rest /\ u_pid su = U)).
+Proof.
+  intros Ky Hc Hp Eq Ap.
+  destruct (gpon_put _ _ _ _ _ _ (sms_validator_post_gpon h) Eq Ap) as (u & Src & Pu & Fx & Rg).
+  assert (FX : (bempty rc_in = true /\ bempty (aget k_sms_secret sess) = false /\
+      code_in = aget k_sms_secret sess /\
+      match alookup k_sms_secret_number sess with Some sent => sent = u_sms u | None => True end) \/
+     (bempty rc_in = false /\
+      exists rest, use_recovery_code E (decode_codes (u_recovery u)) rc_in = Some rest /\
+        exists su, ulookup U (s_users (h_st h')) = Some su /\ u_recovery su = encode_codes rest /\ u_pid su = U)).
+  { destruct Fx as [Fx|(B & rest & Hr)]; [left; exact Fx|right]. split; [exact B|]. exists rest. split; [exact Hr|].
+    exact (Rg B rest Hr). }
+  apply (user_source2_pending _ _ _ Ky Hc Hp) in Src as [(B & Pk & L)|(B & Pk & L)].
+  - split; [left; split; [exact B|congruence]|]. exists u.
+    split; [rewrite <- Pu, Pk; exact L|]. split; [exact Pu|exact FX].
+  - split; [right; split; [exact B|congruence]|]. exists u.
+    split; [rewrite <- Pu, Pk; exact L|]. split; [exact Pu|exact FX].
+Qed.
+End C02.
+
+(* the pending login proper: the session identifies nobody yet *)
+Section C02P.
+Variable E : env.
+Notation sess := (e_sess E).
+Notation rc_in := (aget f_recovery_code (values E)).
+Notation code_in := (aget f_code (values E)).
+
+Lemma totp_pending_completion_lemma h r h' U :
+  keyed (h_st h) -> h_cuser h = None -> h_cpid h = None -> bempty (aget k_uid sess) = true ->
+  totp_validate_post E h = (r, h') -> appends_uid h h' U ->
+  U = aget k_totp_pending sess /\ bempty U = false /\
+  exists u, ulookup U (s_users (h_st h)) = Some u /\ u_pid u = U /\
+    bempty (u_totp u) = false /\
+    ((bempty rc_in = true /\ totp_ok E (u_totp u) code_in = true) \/
+     (bempty rc_in = false /\
+      exists rest, use_recovery_code E (decode_codes (u_recovery u)) rc_in = Some rest /\
+        exists su, ulookup U (s_users (h_st h')) = Some su /\ u_recovery su = encode_codes rest /\ u_pid su = U)).
+Proof.
+  intros Ky Hc Hp Bu Eq Ap.
+  destruct (totp_completion_lemma E h r h' U Ky Hc Hp Eq Ap) as ([(B & _)|(B & HU)] & Rest); [congruence|].
+  split; [exact HU|]. split; [rewrite HU; exact B|exact Rest].
+Qed.
+
+Lemma sms_pending_completion_lemma h r h' U :
+  keyed (h_st h) -> h_cuser h = None -> h_cpid h = None -> bempty (aget k_uid sess) = true ->
+  sms_validator_post E SPValidate h = (r, h') -> appends_uid h h' U ->
+  U = aget k_sms_pending sess /\ bempty U = false /\
+  exists u, ulookup U (s_users (h_st h)) = Some u /\ u_pid u = U /\
+    ((bempty rc_in = true /\ bempty (aget k_sms_secret sess) = false /\
+      code_in = aget k_sms_secret sess /\
+      match alookup k_sms_secret_number sess with Some sent => sent = u_sms u | None => True end) \/
+     (bempty rc_in = false /\
+      exists rest, use_recovery_code E (decode_codes (u_recovery u)) rc_in = Some rest /\
+        exists su, ulookup U (s_users (h_st h')) = Some su /\ u_recovery su = encode_codes rest /\ u_pid su = U)).
+Proof.
+  intros Ky Hc Hp Bu Eq Ap.
+  destruct (sms_completion_lemma E h r h' U Ky Hc Hp Eq Ap) as ([(B & _)|(B & HU)] & Rest); [congruence|].
+  split; [exact HU|]. split; [rewrite HU; exact B|exact Rest].
+Qed.
+End C02P.
